@@ -145,8 +145,16 @@ func genBatchCase(r *hx.Rng, nextID *int, allowRetry *int) (bcfg, []behaviour, [
 		case x < 96:
 			script = append(script, behaviour{typ: 'l', kind: hx.Pick(r, kinds), d: 1 + r.Intn(2)})
 		case *allowRetry > 0 && i < 2:
-			*allowRetry--
-			script = append(script, behaviour{typ: 'y'})
+			// one to three attempts whose stream delivers some answers and then fails with a retriable status
+			b := behaviour{typ: 'o'}
+			if r.Chance(20) {
+				b = behaviour{typ: 'e', code: 1 + r.Intn(9)}
+			}
+			for a := 0; a < 1+r.Intn(3) && *allowRetry > 0; a++ {
+				*allowRetry--
+				b.pre = append(b.pre, r.Intn(4))
+			}
+			script = append(script, b)
 		default:
 			script = append(script, behaviour{typ: 'o'})
 		}
@@ -535,6 +543,9 @@ func main() {
 		"batch 0 w:1:3:1000 sP1 C1:p:4,C2:p:4,C3:d:4",      // short answer: panic after the first callback
 		"batch 0 w:1:3:1000 sD1 C1:p:4,C2:d:4,C3:d:4",
 		"batch 0 r:1:2:0 lG2,e3,e4 C1:g:0,C2:g:0,C3:g:0,C4:g:0,C5:g:0,T,X",
+		"batch 0 r:1:3:0 p1+ok C1:g:0,C2:g:0,C3:g:0", // one answer streamed, retriable failure, then success
+		"batch 0 r:1:4:0 p2+p3+ok,p0+e5 C1:g:0,C2:g:0,C3:g:0,C4:g:0,C5:g:0,T",
+		"batch 0 w:0:3:100 p0+ok,p0+p0+e4 C1:p:4,C2:d:4",
 		"batch 0 w:1:5:1000 - C1:p:4,X,X", // second Close
 		"batch 0 w:1:5:1000 - C1:g:0",     // wrongly typed call
 		"stream 0 1 s1:1,x,r7,x",
@@ -554,10 +565,10 @@ func main() {
 	}
 
 	nextID := 0
-	retries := 2
+	retries := 10 + f.N/150 // every retry waits for the batch's backoff (100 ms and growing)
 	for i := 0; i < f.N; i++ {
 		cfg, script, events := genBatchCase(r, &nextID, &retries)
-		if nextID > 900000 {
+		if nextID > 90000 {
 			nextID = 0
 		}
 		doBatchCase(o, cfg, script, events)
